@@ -12,9 +12,9 @@ cd $WT || exit 2
 export CARGO_TARGET_DIR=$WT/target CARGO_NET_OFFLINE=true
 TEST=$(basename $DEMO .rs)
 git apply -R --check seed_patch.diff 2>>$LOG || { echo "patch not applied in worktree" >> $LOG; git apply seed_patch.diff 2>>$LOG; }
-cp seed_demo/$DEMO cedar-policy/tests/$DEMO
+DEMO_PKG=${DEMO_PKG:-cedar-policy}; cp seed_demo/$DEMO $DEMO_PKG/tests/$DEMO
 echo "== demo with patch" >> $LOG
-cargo test --offline -p cedar-policy ${FEATURES:+--features $FEATURES} --test $TEST >> $LOG 2>&1; WITH=$?
+cargo test --offline -p $DEMO_PKG ${FEATURES:+--features $FEATURES} --test $TEST >> $LOG 2>&1; WITH=$?
 echo "== existing tests with patch" >> $LOG
 EXIST=0
 cargo test --offline -p cedar-policy-core --lib ${FEATURES:+--features $FEATURES} 2>&1 | tail -4 >> $LOG; [ ${PIPESTATUS[0]} -eq 0 ] || EXIST=1
@@ -22,7 +22,7 @@ cargo test --offline -p cedar-policy --lib ${FEATURES:+--features $FEATURES} 2>&
 for pkg in "$@"; do cargo test --offline -p $pkg 2>&1 | tail -4 >> $LOG; [ ${PIPESTATUS[0]} -eq 0 ] || EXIST=1; done
 git apply -R seed_patch.diff
 echo "== demo without patch" >> $LOG
-cargo test --offline -p cedar-policy ${FEATURES:+--features $FEATURES} --test $TEST >> $LOG 2>&1; WITHOUT=$?
+cargo test --offline -p $DEMO_PKG ${FEATURES:+--features $FEATURES} --test $TEST >> $LOG 2>&1; WITHOUT=$?
 cp seed_patch.diff $OUT/patch.diff
 cp seed_demo/* $OUT/ 2>/dev/null
 python3 - "$NAME" "$WITH" "$EXIST" "$WITHOUT" <<'PY'
